@@ -390,3 +390,128 @@ pub mod verif_hooks {
         }
     }
 }
+
+/// Verification hooks (feature `verif`, add-only, wave 2): the FIELDS of the node messages a real
+/// `handle_serialized` builds — `to`, `tag`, `what`, `variant`, `metadata`, `timeout_ms` — for casts
+/// and calls with arbitrary variant names, argument bytes, metadata and reply timeouts.
+#[cfg(feature = "verif")]
+#[allow(missing_docs, missing_debug_implementations, unreachable_pub)]
+pub mod verif_fields {
+    use std::sync::{Arc, Mutex};
+
+    use super::*;
+
+    /// `(is_call, to, tag, what, variant, metadata, timeout_ms)`
+    pub type FieldFrame = (bool, u64, u64, Vec<u8>, String, Option<Vec<u8>>, Option<u64>);
+
+    struct FieldSession(Arc<Mutex<Vec<FieldFrame>>>);
+
+    #[cfg_attr(feature = "async-trait", ractor::async_trait)]
+    impl Actor for FieldSession {
+        type Msg = crate::node::NodeSessionMessage;
+        type State = ();
+        type Arguments = ();
+        async fn pre_start(&self, _: ActorRef<Self::Msg>, _: ()) -> Result<(), ActorProcessingErr> {
+            Ok(())
+        }
+        async fn handle(
+            &self,
+            _: ActorRef<Self::Msg>,
+            message: Self::Msg,
+            _: &mut (),
+        ) -> Result<(), ActorProcessingErr> {
+            if let NodeSessionMessage::SendMessage(m) = message {
+                match m.msg {
+                    Some(crate::protocol::node::node_message::Msg::Call(c)) => self
+                        .0
+                        .lock()
+                        .unwrap()
+                        .push((true, c.to, c.tag, c.what, c.variant, c.metadata, c.timeout_ms)),
+                    Some(crate::protocol::node::node_message::Msg::Cast(c)) => self
+                        .0
+                        .lock()
+                        .unwrap()
+                        .push((false, c.to, 0, c.what, c.variant, c.metadata, None)),
+                    _ => {}
+                }
+            }
+            Ok(())
+        }
+    }
+
+    pub struct FieldProbe {
+        state: RemoteActorState,
+        myself: ActorRef<RemoteActorMessage>,
+        session: ActorRef<crate::node::NodeSessionMessage>,
+        frames: Arc<Mutex<Vec<FieldFrame>>>,
+        callers: Vec<ractor::concurrency::OneshotReceiver<Vec<u8>>>,
+    }
+
+    impl FieldProbe {
+        pub async fn new() -> Self {
+            let frames = Arc::new(Mutex::new(Vec::new()));
+            let (session, _) = Actor::spawn(None, FieldSession(frames.clone()), ())
+                .await
+                .expect("field session");
+            let (myself, _) = Actor::spawn(None, RemoteActor, session.clone())
+                .await
+                .expect("remote actor shell");
+            Self {
+                state: RemoteActorState::new(session.clone()),
+                myself,
+                session,
+                frames,
+                callers: Vec::new(),
+            }
+        }
+
+        /// the pid `handle_serialized` puts into `to`
+        pub fn pid(&self) -> u64 {
+            self.myself.get_id().pid()
+        }
+
+        pub async fn cast(&mut self, variant: String, args: Vec<u8>, metadata: Option<Vec<u8>>) {
+            RemoteActor
+                .handle_serialized(
+                    self.myself.clone(),
+                    SerializedMessage::Cast { variant, args, metadata },
+                    &mut self.state,
+                )
+                .await
+                .expect("handle_serialized");
+        }
+
+        pub async fn call(
+            &mut self,
+            variant: String,
+            args: Vec<u8>,
+            metadata: Option<Vec<u8>>,
+            timeout_ms: Option<u64>,
+        ) {
+            let (tx, rx) = ractor::concurrency::oneshot();
+            self.callers.push(rx);
+            let reply = match timeout_ms {
+                Some(ms) => (tx, std::time::Duration::from_millis(ms)).into(),
+                None => tx.into(),
+            };
+            RemoteActor
+                .handle_serialized(
+                    self.myself.clone(),
+                    SerializedMessage::Call { variant, args, reply, metadata },
+                    &mut self.state,
+                )
+                .await
+                .expect("handle_serialized");
+        }
+
+        /// Frames recorded by the session so far (drained).
+        pub fn take(&mut self) -> Vec<FieldFrame> {
+            std::mem::take(&mut *self.frames.lock().unwrap())
+        }
+
+        pub fn shutdown(&self) {
+            self.myself.stop(None);
+            self.session.stop(None);
+        }
+    }
+}
